@@ -53,7 +53,7 @@ def add(dt, delta):
     wall_naive = dt.replace(tzinfo=None) + delta
     tz = dt.tzinfo
     if hasattr(tz, "localize"):
-        wall = tz.localize(wall_naive)
+        wall = V.pytz_local(tz, wall_naive)
     else:
         wall = wall_naive.replace(tzinfo=tz)
     elapsed = (dt.astimezone(timezone.utc) + delta)
